@@ -46,8 +46,9 @@ ASSUMPTIONS = [
     "field is large (eps*max|F|) travels with the wave, so the noise floor is absolute (seen: max|F| = 0.2, 1e-10 at "
     "a detector, superposition error 1e-18 there). Linear records therefore use scale = max(max|record|, rho*max|F|) "
     "with max|F| over the whole domain and all steps (auxiliary full-domain field detector) and rho = 1e-3 (f64) / "
-    "0.1 (f32); quadratic records are only checked where the local field reaches rho*max|F|, and reduced Poynting "
-    "sums are scaled by their cancellation factor sum|S_i|/|sum S_i| from an unreduced twin detector",
+    "0.1 (f32); a quadratic record (product of fields, absolute noise eps*max|F|*(|E|+|H|)) is only checked when its "
+    "raw per-cell values reach rho_q^2*max|F|^2, rho_q = 0.03 (f64) / 0.3 (f32) (unreduced twin detector for reduced "
+    "records), and reduced Poynting sums are scaled by their cancellation factor sum|S_i|/|sum S_i| from that twin",
     "random initial fields are projected onto the boundary walls with the boundaries' own post-update hooks "
     "(a linear projection, applied identically in every run)",
 ]
@@ -210,15 +211,16 @@ def _with_aux(scene):
     * `__all`: raw E,H of the whole domain at every step.  Round-off made where the field is large (~eps*max|F|)
       travels with the wave, so the noise floor in a quiet corner is absolute, not relative to the local field
       (seen: |F| = 0.2 globally, 1e-10 at a detector, superposition error 1e-18 there = 1e-8 of the local field).
-    * an unreduced twin of every reduced Poynting detector: gives the cancellation factor sum|S_i| / |sum S_i|."""
+    * an unreduced twin of every reduced Energy/Poynting detector: the raw per-cell values decide whether the record
+      is above the noise of a product of fields, and give the cancellation factor sum|S_i| / |sum S_i| of a flux sum."""
     sc = copy.deepcopy(scene)
     sc["detectors"].append({"type": "field", "name": ALL, "exact": False, "switch": {}, "lo": [0, 0, 0],
                             "hi": list(scene["shape"]), "reduce": False, "components": list(COMPS)})
     for d in scene["detectors"]:
-        if d["type"] == "poynting" and d.get("reduce"):
-            t = {k: d[k] for k in ("direction", "keep_all", "fixed_axis") if k in d}
-            t.update(type="poynting", reduce=False, name=d["name"] + TWIN, exact=d.get("exact", True),
-                     switch=copy.deepcopy(d.get("switch", {})), lo=list(d["lo"]), hi=list(d["hi"]))
+        if d["type"] in ("poynting", "energy") and d.get("reduce"):
+            t = copy.deepcopy(d)
+            t.update(name=d["name"] + TWIN, reduce=False)
+            t.pop("as_slices", None)
             sc["detectors"].append(t)
     return sc
 
@@ -259,6 +261,7 @@ def body(ctx, case):
     by_name = {d["name"]: d for d in scene["detectors"]}
     scene = _with_aux(scene)
     rho = ctx.tol(1e-3, 0.1)  # quiet-region floor, as a fraction of the global max|F| over space and time
+    rho_q = ctx.tol(0.03, 0.3)  # quadratic records: compared when max|raw record| >= rho_q^2 * max|F|^2
 
     # ---- classification (from the case alone) --------------------------------------------------
     kinds = sorted({f["kind"] for f in scene["faces"].values()})
@@ -357,14 +360,17 @@ def body(ctx, case):
                     ctx.classify("zero-quadratic-record")
                     continue
                 d = by_name[name]
-                region = (slice(None), slice(None), *(slice(max(lo - 1, 0), hi + 1) for lo, hi in zip(d["lo"], d["hi"])))
-                if _amax(allrec(joint)[region]) < rho * _amax(allrec(joint)):
-                    # relative noise of a quadratic record is 2*eps*max|F|/|F_local|: outside the stated tolerance
-                    ctx.classify("quadratic-in-quiet-region-not-checked")
+                raw = joint[2][name + TWIN][key] if name + TWIN in joint[2] else qj
+                fj = _amax(allrec(joint))
+                if _amax(raw) < rho_q * rho_q * fj * fj:
+                    # a product of fields carries the absolute noise eps*max|F|*(|E|+|H|): below rho_q^2*max|F|^2 the
+                    # relative noise of the record exceeds the stated tolerance (seen: S = 1e-26 from components of
+                    # 1e-13 next to a dipole of 0.1, relative difference 2e-5)
+                    ctx.classify("quadratic-below-noise-not-checked")
                     continue
-                if name + TWIN in joint[2]:  # reduced flux: scale of the summands, via the cancellation factor
-                    tw = joint[2][name + TWIN][key].astype(np.float64)
-                    tw = tw.reshape(tw.shape[0], 3, -1) if by_name[name].get("keep_all") else tw.reshape(tw.shape[0], -1)
+                if typ == "poynting" and name + TWIN in joint[2]:  # reduced flux: cancellation factor of the sum
+                    tw = raw.astype(np.float64)
+                    tw = tw.reshape(tw.shape[0], 3, -1) if d.get("keep_all") else tw.reshape(tw.shape[0], -1)
                     a, b = _amax(np.abs(tw).sum(axis=-1)), _amax(tw.sum(axis=-1))
                     if b == 0.0:
                         ctx.classify("flux-sum-fully-cancelled")
